@@ -428,8 +428,6 @@ def run(ctx, rep):
     rule_id(ctx, rep)
     rule_keys(ctx, rep)
     rule_pipe(ctx, rep)
-    try:
-        from rules import c08_trivia
-        c08_trivia.run(ctx, rep)
-    except ImportError:
-        pass
+    from rules import c08_trivia, c08_endif
+    c08_trivia.run(ctx, rep)
+    c08_endif.run(ctx, rep)
